@@ -273,6 +273,8 @@ pub struct Ctx {
     pub all_exhaustive: bool,
     /// classes that must have been produced at least once (generator health); checked in finish()
     pub required_classes: Vec<String>,
+    /// shrink budget of the random driver (lower it for expensive oracles such as process runs)
+    pub max_shrink_iters: u32,
 }
 
 impl Ctx {
@@ -296,6 +298,7 @@ impl Ctx {
             inconclusive: None,
             all_exhaustive: false,
             required_classes: vec![],
+            max_shrink_iters: 40_000,
         }
     }
 
@@ -436,10 +439,11 @@ impl Ctx {
                 let results = &results;
                 let seed = self.seed;
                 let property = self.property.clone();
+                let msi = self.max_shrink_iters;
                 std::thread::Builder::new()
                     .stack_size(64 << 20)
                     .spawn_scoped(s, move || {
-                        let r = run_shard(&property, sub, seed, shard as u64, per, tape_len, gen, oracle);
+                        let r = run_shard(&property, sub, seed, shard as u64, per, tape_len, msi, gen, oracle);
                         results.lock().unwrap().push((shard, r.0, r.1));
                     })
                     .unwrap();
@@ -630,7 +634,7 @@ fn shard_seed(property: &str, sub: &str, seed: u64, shard: u64) -> [u8; 32] {
     out
 }
 
-fn run_shard<C, G, O>(property: &str, sub: &str, seed: u64, shard: u64, cases: u64, tape_len: usize, gen: &G, oracle: &O) -> (Stats, Option<Failure>)
+fn run_shard<C, G, O>(property: &str, sub: &str, seed: u64, shard: u64, cases: u64, tape_len: usize, max_shrink_iters: u32, gen: &G, oracle: &O) -> (Stats, Option<Failure>)
 where
     C: Serialize,
     G: Fn(&mut Tape) -> C,
@@ -640,7 +644,7 @@ where
         cases: cases.min(u32::MAX as u64) as u32,
         failure_persistence: None,
         rng_seed: RngSeed::Fixed(0),
-        max_shrink_iters: 40_000,
+        max_shrink_iters,
         max_global_rejects: 0,
         ..Config::default()
     };
